@@ -73,7 +73,9 @@ impl LocalNameHash {
                 // NOTE: apply 0x0F mask on ASCII digit to convert it to number
                 // from 1 to 6. Then subtract 1 to make it zero-based.
                 // Afterwards, put result as lower bits of the hash.
-                b'1'..=b'6' => (h << 5) | ((u64::from(ch) & 0x0F) - 1),
+                // A leading digit is not representable: `1` is encoded as 0b00000,
+                // so e.g. `1div` (a CSS type selector `\31 div`) would hash like `div`.
+                b'1'..=b'6' if h != 0 => (h << 5) | ((u64::from(ch) & 0x0F) - 1),
 
                 // NOTE: for any other characters hash function is not
                 // applicable, so we completely invalidate the hash.
